@@ -8,7 +8,7 @@ GROUP = "SqlFmt"
 META = {
     "group": "SqlFmt",
     "technique": "Coq proof of parse/print round trip over a generic precedence-tier parser (any operator table passing wf_table), instantiated with the SQL expression fragment; tier table and keyword-quoting table regenerated from the Go source on every run; vm_compute correspondence of model lexer/parser/printer with the real ones; AST-equality, idempotence and SQLite-execution oracle on generated statements",
-    "text": "Theorems C16_reparse / C16_idempotent (every tree the expression parser returns is read back from the printed token list as the same tree, for every tier table without a repeated operator and every quoting table covering the parser's keywords), C16_wf_roundtrip + C16_parse_wf (exactly the trees nested as the tiers allow survive print-then-parse; parser results are such trees), C16_quote_string / C16_quote_ident (the lexer reads a quoted string/identifier back as the same value, all strings), C16_old_keyword_refuted / C16_old_minus_refuted (the tree before the two fixes lost quoted keyword names and wrote '- -x' as a comment) C16_text_lex / C16_parse_eok / C16_statement_text (the TEXT the repaired printer writes lexes to exactly the printed token list - proved over a char-level model of lexer.go - so every accepted token list of the fragment whose numbers are digit strings is read back from the printed text as the same tree) are proved for all inputs over the model of literals, names, prefix/binary operators of all nine tiers and parentheses. partial: IS/IN/BETWEEN/LIKE/CASE/CAST/function calls/subqueries, the SELECT/INSERT/UPDATE/DELETE/DDL printers non-digit number spellings at text level are checked on the real code only (AST equality after re-parse, idempotence, same result on SQLite), not proved",
+    "text": "Theorems C16_reparse / C16_idempotent (every tree the expression parser returns is read back from the printed token list as the same tree, for every tier table without a repeated operator and every quoting table covering the parser's keywords), C16_wf_roundtrip + C16_parse_wf (exactly the trees nested as the tiers allow survive print-then-parse; parser results are such trees), C16_quote_string / C16_quote_ident (the lexer reads a quoted string/identifier back as the same value, all strings), C16_old_keyword_refuted / C16_old_minus_refuted (the tree before the two fixes lost quoted keyword names and wrote '- -x' as a comment) C16_text_lex / C16_parse_eok / C16_statement_text (the TEXT the repaired printer writes lexes to exactly the printed token list - proved over a char-level model of lexer.go - so every accepted token list of the fragment whose numbers are digit strings is read back from the printed text as the same tree) are proved for all inputs over the model of literals, names, prefix/binary operators of all nine tiers and parentheses; C16_reparse2 / C16_roundtrip2 extend the token-level round trip to a second expression type with IS [NOT] NULL, x IS [NOT] y, [NOT] LIKE-family, [NOT] BETWEEN (bounds one tier above AND), [NOT] IN (list), calls f(args) and tuples (on token lists in which the multi-word operators are fused; the fusing pass is compared with the real parser, not proved). partial: CASE/CAST/COLLATE/ESCAPE/subqueries/decorated calls, the token-fusing pass, the SELECT/INSERT/UPDATE/DELETE/DDL printers non-digit number spellings at text level are checked on the real code only (AST equality after re-parse, idempotence, same result on SQLite), not proved",
     "note": "Trusted: Coq kernel; hand-written model of expr.go/lexer.go/format_expr.go (ASCII) tied by the correspondence run; regex translators for the tier chain of expr.go and quotedKeywords of format.go; overlay harness with reflective AST dump; modernc SQLite as execution oracle.",
 }
 
